@@ -235,7 +235,17 @@ def r10(ctx):
         raise AnalysisBroken('C10.R10: running output index not found in DataFieldSet::read')
 
 
+def r11(ctx):
+    import rules.common as _common
+    ctx.rule('C10.R11', 'a field is encoded from its own text: where the field sources (data.cpp, datatype.cpp) take the input '
+             'apart with std::getline into a token variable, the result of getline is looked at - at the end of the input '
+             'getline leaves the previous token in place, and with the result discarded DataFieldSet::write hands the text of '
+             'the previous field to the next one instead of reporting the missing value', minimum=4)
+    _common.getline_result_rule(ctx, 'C10.R11', lambda f: f.relfile in ('src/lib/ebus/data.cpp', 'src/lib/ebus/datatype.cpp'), 4)
+
+
 def run(ctx):
+    r11(ctx)
     r1(ctx)
     r2(ctx)
     import rules.C12 as c12
